@@ -38,6 +38,11 @@ func runFailW(a args) error {
 			}()
 			return hx.Post(env.Hub, url.Values{"topic": {"t"}, "id": {big}, "data": {"2"}}, auth)
 		}()
+		// the hub's last event id right after the refusal: the id of the last stored update
+		lastAfter := "?"
+		if ts, ok := env.Transport.(mercure.TransportSubscribers); ok {
+			lastAfter, _, _ = ts.GetSubscribers()
+		}
 		if c, _ := hx.Post(env.Hub, url.Values{"topic": {"t"}, "id": {"last"}, "data": {"3"}}, auth); c != 200 {
 			return fmt.Errorf("last publish refused: %d", c)
 		}
@@ -64,8 +69,8 @@ func runFailW(a args) error {
 		acked := code == 200 && strings.TrimSpace(body) == big
 		live.Close()
 		env.Close()
-		term := fmt.Sprintf("{| fw_status := %d; fw_acked := %v; fw_delivered := %v; fw_stored := %v; fw_others_stored := %v |}", code, acked, delivered, has(big), has("first") && has("last"))
-		out.Add(term, map[string]any{"id_bytes": size, "status": code, "acknowledged": acked, "delivered_live": delivered, "stored": has(big), "stored_ids_count": len(stored)}, true, fmt.Sprintf("status:%d", code), fmt.Sprintf("id-bytes:%d", size))
+		term := fmt.Sprintf("{| fw_status := %d; fw_acked := %v; fw_delivered := %v; fw_stored := %v; fw_others_stored := %v; fw_last_is_previous := %v |}", code, acked, delivered, has(big), has("first") && has("last"), lastAfter == "first")
+		out.Add(term, map[string]any{"id_bytes": size, "status": code, "acknowledged": acked, "delivered_live": delivered, "stored": has(big), "stored_ids_count": len(stored), "last_event_id_after_the_refusal_bytes": len(lastAfter), "last_event_id_is_previous": lastAfter == "first"}, true, fmt.Sprintf("status:%d", code), fmt.Sprintf("id-bytes:%d", size))
 	}
 	return out.Flush()
 }
